@@ -11,7 +11,12 @@
 //  * scalars of the execution context: `Scalars::get_value` returns a reference that resolves to the
 //    uninterpreted `scalar_spec(name)`; a fold variable handed out by it is never exhausted
 //    (PEEK_ALLOWED_ON_NON_EMPTY, the `expect` in select_by_scalar).
-//  * ExecutionError / CatchableError: the variants used here.
+//  * ExecutionError / CatchableError: the variants used here; `JValue::as_array`, `JArray::len`, `From<usize> for JValue`
+//    (uninterpreted `jvalue_of_usize`) for the `.length` functor.
+// Rewrites (all local): the closure of try_number_to_u32 gets its annotated form (R11); the closure inside the
+//    lifted `lambda_to_execution_error!` is annotated (`ensures is_lambda_error(o)`) and wrapped in `verus_exec_expr!`
+//    so that Verus syntax is legal inside a macro body; in select_by_path_from_scalar the loop iterator is named
+//    (`in it: lambda`) and the `impl Iterator` parameter is instantiated at the call sites' `core::slice::Iter`.
 use vstd::prelude::*;
 use vstd::std_specs::iter::IteratorSpec;
 verus! {
